@@ -1674,3 +1674,68 @@ Proof.
     exact (bf_finish_P x _ _ _ _ _ _ _ Epx _ _ _ H).
   - inversion H; subst. exact (bf_setup_P x _ _ _ _ _ Epx _ _ _ Hs).
 Qed.
+
+Lemma sb_finish_P : forall x f sa skw res subs, pres (PPO x) (sb_finish f sa skw res subs).
+Proof.
+  intros x f sa skw res subs w w' r H. unfold sb_finish in H. cbv zeta in H.
+  destruct res as [v|e]; [destruct (sanitize v)|];
+    match type of H with (match ?X with _ => _ end) = _ => destruct X as [w5 u] eqn:E5 end;
+    inversion H; subst; exact (new_finish_subbuild_P x _ _ _ _ _ E5).
+Qed.
+
+Theorem m_subbuild_P : forall x f a kw (fn : pyval -> pyval -> body),
+  (forall sa skw, pres (PPO x) (fn sa skw)) -> pres (PPO x) (m_subbuild f a kw fn).
+Proof.
+  intros x f a kw fn Hfn w w' r H. rewrite m_subbuild_unfold in H.
+  destruct (sanitize a) as [sa|]; [|inversion H; subst; apply prel_refl].
+  destruct (sanitize kw) as [skw|]; [|inversion H; subst; apply prel_refl].
+  destruct (sb_setup f sa skw w) as [w1 [[[o|[e o]]|]|e]] eqn:Hs;
+    try (inversion H; subst; exact (sb_setup_P x _ _ _ _ _ _ Hs)).
+  unfold sb_rebuild in H.
+  destruct (fn sa skw (sb_invoke_world f sa skw w1)) as [w3 [res subs]] eqn:Ef.
+  eapply prel_trans; [exact (sb_setup_P x _ _ _ _ _ _ Hs)|].
+  eapply prel_trans; [apply (prel_set_log x (LInvoke f None sa skw :: w_log w1) w1)|].
+  eapply prel_trans; [exact (Hfn sa skw _ _ _ Ef)|].
+  exact (sb_finish_P x _ _ _ _ _ _ _ _ H).
+Qed.
+
+Theorem m_query_P : forall x q, pres (PPO x) (m_query q).
+Proof. intros x q w w' r H. apply hx_prel. exact (m_query_strict q w w' r H). Qed.
+
+Lemma prel_log_answer : forall x q r w, prel x w (log_answer q r w).
+Proof.
+  intros x q r w. unfold log_answer.
+  repeat match goal with |- context [match ?y with _ => _ end] => destruct y end;
+    first [apply prel_refl | apply prel_set_log].
+Qed.
+
+(* user code and everything it calls: a path claimed further up the call stack
+   stays claimed, and no entry of the memo is made for it *)
+Theorem run_P : forall x pr target subs, target <> Some x -> pres (PPO x) (run pr target subs).
+Proof.
+  intros x.
+  induction pr as [v | e | stale q k IH | c k IH | stale p c f a kw fn IHfn k IHk | stale f a kw fn IHfn k IHk];
+    intros target subs Ht w w' r H; cbn [run] in H; change (prel x w w').
+  - inversion H; subst. apply prel_refl.
+  - inversion H; subst. apply prel_refl.
+  - destruct stale; [eapply IH; eauto|].
+    destruct (m_query q w) as [w1 [r1 o]] eqn:E.
+    apply (m_query_P x) in E. apply IH in H; [|exact Ht].
+    eapply prel_trans; [exact E|]. eapply prel_trans; [apply prel_log_answer | exact H].
+  - destruct target as [t|]; [|eapply IH; eauto].
+    destruct (write_file (w_fs w) t c None (N.succ (w_clock w)) (w_nextid w)) as [fs'|e] eqn:E.
+    + apply IH in H; [|exact Ht]. eapply prel_trans; [|exact H].
+      split; [reflexivity|]. intros _ Hp. split; [exact Hp | reflexivity].
+    + inversion H; subst. apply prel_refl.
+  - destruct stale; [eapply IHk; eauto|].
+    match type of H with (let '(_, _) := ?X in _) = _ => destruct X as [w1 [r1 o]] eqn:E end.
+    apply (m_build_file_P x) in E.
+    + apply IHk in H; [|exact Ht]. eapply prel_trans; [exact E | exact H].
+    + intros sa skw Hne. apply IHfn. intro X. inversion X. contradiction.
+    + intros sa skw. apply run_O.
+  - destruct stale; [eapply IHk; eauto|].
+    match type of H with (let '(_, _) := ?X in _) = _ => destruct X as [w1 [r1 o]] eqn:E end.
+    apply (m_subbuild_P x) in E.
+    + apply IHk in H; [|exact Ht]. eapply prel_trans; [exact E | exact H].
+    + intros sa skw. apply IHfn. discriminate.
+Qed.
